@@ -270,14 +270,14 @@ Vv("V.timer", "timer", ["C34"], ["TimerDevice::poll_interrupt", "TimerDevice::re
 # ------------------------------------------------------------------------------------------------ properties
 TRUST = "rustc/Kani/CBMC/CaDiCaL trusted; std verified through unless a stub is listed"
 PROPS = {
- "C01": ("proof", "Mechanism functions under contract: encode = ISA bits, opcode, alias table, directive sizes, location-counter arithmetic (Verus, unbounded). Pass-1/pass-2 loops (HashMap<String,_>/BTreeMap plumbing) are assumed, incl. the lc+1 call site; label-offset contract is bounded (1 label) and in the thorough tier."),
+ "C01": ("proof", "Mechanism functions under contract: encode = ISA bits, opcode, alias table, directive sizes, location-counter arithmetic (Verus, unbounded). The block writer of pass 2 (ObjBlock, nested items extracted verbatim): .fill value / label address, .blkw n reserved words, .stringz bytes + zero word, every directive emits exactly word_len words (bounded sizes). Pass-1/pass-2 statement loops (HashMap<String,_>/BTreeMap plumbing) are assumed, incl. the lc+1 call site; label-offset contract is bounded (1 label)."),
  "C02": ("proof", "Arithmetic and range conditions: Cursor::shift (Verus, unbounded: accepted iff non-empty block stays below xFE00 without wrapping; error kind), ranges_overlap (complete). Structural conditions (nesting, duplicate labels, neighbour search) live in the pass loops: assumed."),
  "C05": ("proof", "Value -> field conversions for every field width used, .fill literal and register token: complete over all token values. Text -> value: the lexer's validators (lex_reg, lex_unsigned_dec, lex_signed_dec, lex_unsigned_hex, lex_signed_hex) called directly under their token regex's precondition, bounded by literal length (1-6 digits). Which validator the logos DFA dispatches to is assumed."),
  "C06": ("proof", "Complete: loop-free harnesses over every 16-bit word and every representable instruction against an independent ISA reference."),
  "C07": ("proof", "Structural leg complete over all 65536 words: disassemble_line / try_disassemble_line, then into_sim_instr(any pc).encode() gives the word back; .fill for words below x0200 and non-instructions; aliases by name. The print -> lex -> parse leg (Display, logos) is assumed."),
  "C08": ("proof", "Modular: read_mem/write_mem against their contract (L1), then every step from every machine state, all opcodes, interrupts, real and virtual traps against an independent ISA reference with the memory accessors replaced by that contract (L2); leaf contracts for PSR, set_cc, decode."),
  "C09": ("proof", "Modular: access-check contract of read_mem/write_mem (L1: error iff user mode and outside x3000..xFDFF; then nothing reached), every access of every step carries the privilege of its mode and is one the ISA prescribes (L2), RTI in user mode is a privilege violation."),
- "C10": ("proof", "Per-step mechanism: gate (taken iff priority above current, only at the step start, polled once), entry state, entry followed by RTI restores everything (2-step lemma); arbitration bounded to 4 device slots. Handlers with bodies are guest programs: not claimed."),
+ "C10": ("proof", "Per-step mechanism: gate (taken iff priority above current, only at the step start, polled once), entry state, entry followed by RTI restores everything (2-step lemma); arbitration bounded to 4 device slots. TRAP and exception entry (real traps) leave the priority field alone. Handlers with bodies are guest programs: not claimed."),
  "C12": ("proof", "Step level: a step that neither halts nor raises an exception under virtual traps is identical under real traps (relational, all states); HALT/exception entry under real traps is the entry sequence of C08. OS message printing is guest code: not claimed."),
  "C13": ("other", "Run loops are a bounded stand-in (<= 3 iterations, thorough 4; Simulator::step replaced by its contract): stops exactly when the documented condition holds at an instruction boundary, no step is taken once it holds, nothing is changed between steps, a breakpoint added mid-run by the tripwire stops the run, step_out at depth 0 does nothing. step_in against step's contract and the breakpoint predicates (Comparator::check, Breakpoint::check) are complete."),
  "C14": ("proof", "Relational, per step, all states: strict vs non-strict run over the same memory function; in_alloca bounded (<= 2 blocks); strict branch of write_mem in L1."),
@@ -290,7 +290,7 @@ PROPS = {
  "C27": ("proof", "Depth delta and the content of every entered frame (caller = calling / interrupted instruction, callee = subroutine start or vector, kind) are part of the ISA reference of every step (L2, push_frame replaced by its contract); push/pop leaf contract; debug frames without signature and get_arguments bounded (<= 2 parameters)."),
  "C28": ("proof", "Observer calls exact in read_mem/write_mem (L1), every program access tracked and the access set is the ISA's (L2); observer map bounded (2 updates)."),
  "C29": ("other", "Partial, bounded: MemArray::copy_obj_block (the function that places one block of the image) sets exactly the block's initialized words, marks its reserved words uninitialized and leaves every other word unchanged, incl. blocks that wrap past xFFFF -- for concrete start addresses and shapes (6 obligations), values / old memory / probe symbolic. The constructor new_with_mcr: OS loaded once, every word of the I/O page an initialized zero (symbolic probe, all strategies), with the 64K filler, slice::fill, load_os and FrameStack::new stubbed. load_obj_file's loop over blocks, the external-symbol check and 'a new simulator holds the OS image' are not covered."),
- "C30": ("proof", "reset against new_with_mcr's contract (recording stub): constructor called once with the same flags and the same MCR handle; all architectural state (registers, PC, PSR, saved SP, frame depth, instruction count, memory at a symbolic probe, halt/breakpoint status) is the fresh machine's; device handler moved across; register map kept by content (one concrete mapping, bounded)."),
+ "C30": ("proof", "reset against new_with_mcr's contract (recording stub): constructor called once with the same flags and the same MCR handle; all architectural state (registers, PC, PSR, saved SP, frame depth, instruction count, memory at a symbolic probe, halt/breakpoint status) is the fresh machine's; device handler moved across; register map kept by content (one concrete mapping, bounded). The constructor body against its own contract (flags and MCR handle as given, counter 0, not halted, I/O page clear; deterministic for the Known strategy) with the 64K filler, slice::fill, load_os, FrameStack::new and rand stubbed."),
  "C32": ("proof", "Port-table representation invariant at symbolic witness ports: dispatch reaches the owner exactly once; add/remove/replace preserve it (device counts bounded); internal registers win over devices (L1, empty and default map); mmap/munmap with concrete addresses incl. a second mapping of an occupied address; the real keyboard and display devices against their register contracts."),
  "C34": ("proof", "Unbounded (Verus): countdown step contract on the verbatim bodies + interval/first-interrupt lemmas by induction. Kani: SampleRange::new leaf; try_generate_time draws inside the configured range (rand's range reduction verified through, four concrete ranges); every device polled exactly once per boundary also with external interrupts present."),
  "C35": ("proof", "Complete: 32 loop-free harnesses (N=1..16, signed/unsigned) over the full 16-bit input domain."),
